@@ -49,14 +49,23 @@ Theorem C10_late_polls_bounded : forall s poll, mono poll ->
 Proof. exact late_polls_bounded. Qed.
 Print Assumptions C10_late_polls_bounded.
 
+(* Long single scans: the keyword scanner model.DetectKeywordsWithContext polls once per iteration, so
+   however many string literals / comments one object contains, at most one poll of a scan sees the
+   cancelled context (the harness checks on the code that the polls are really made: at least one
+   per skipped literal/comment). *)
+Theorem C10_scan_late_le_1 : forall poll iters s o s', mono poll ->
+  run poll (scan iters) s = (o, s') -> late s' <= late s + 1.
+Proof. exact scan_late_le_1. Qed.
+Print Assumptions C10_scan_late_le_1.
+
 (* non-vacuity *)
 Example C10_nonvacuous :
-  let s := mkshape true false false [STable 3; SStream (mkfo 0 2 0 false)] [FObj (mkfo 0 1 0 false)] 0
-                   [mkos (mkfo 0 2 0 false) 4]
-                   [EFree; EParse (mkfo 1 3 1 false); ECached] in
+  let s := mkshape true false false [STable 3; SStream (mkfo 0 [] 2 0 false)] [FObj (mkfo 0 [] 1 0 false)] 0
+                   [mkos (mkfo 0 [] 2 0 false) 4]
+                   [EFree; EParse (mkfo 1 [2%nat] 3 1 false); ECached] in
   mono (flip_at (Some 7) 9) /\
-  read (flip_at None 9) s = (Done, mkst 27 0) /\
+  read (flip_at None 9) s = (Done, mkst 30 0) /\
   read (flip_at (Some 6) 9) s = (CtxErr 9, mkst 9 3) /\      (* cancelled in the xref stream: no repair *)
-  read (flip_at (Some 20) 9) s = (CtxErr 9, mkst 23 3) /\
+  read (flip_at (Some 20) 9) s = (CtxErr 9, mkst 22 2) /\
   read (flip_at (Some 0) 9) s = (CtxErr 9, mkst 1 1).
 Proof. split; [apply flip_at_mono|]. vm_compute. repeat split. Qed.
